@@ -5,6 +5,7 @@ package ref
 
 import (
 	"fmt"
+	"reflect"
 	"strings"
 
 	gast "github.com/dop251/goja/ast"
@@ -298,7 +299,12 @@ func gExpr(e gast.Expression) string {
 // ---- xjs side
 
 // XStmts is the shape of an xjs statement list (grouping nodes dropped).
-func XStmts(ss []xast.Statement) string {
+func XStmts(ss []xast.Statement) (out string) {
+	defer func() {
+		if r := recover(); r != nil {
+			out = fmt.Sprintf("[(?incomplete-tree %v)]", r) // only trees of rejected inputs are incomplete
+		}
+	}()
 	var b []string
 	for _, s := range ss {
 		b = append(b, xStmt(s))
@@ -318,7 +324,20 @@ func xParams(ps []*xast.Identifier) string {
 	}
 	return strings.Join(s, ",")
 }
+
+// nilNode: nil interface or typed nil pointer (trees of rejected inputs contain both).
+func nilNode(n any) bool {
+	if n == nil {
+		return true
+	}
+	v := reflect.ValueOf(n)
+	return v.Kind() == reflect.Ptr && v.IsNil()
+}
+
 func xStmt(s xast.Statement) string {
+	if nilNode(s) {
+		return "(nil)"
+	}
 	switch s := s.(type) {
 	case *xast.LetStatement:
 		return fmt.Sprintf("(let %s %s)", s.Name.Value, xOpt(s.Value))
@@ -344,6 +363,9 @@ func xStmt(s xast.Statement) string {
 	return fmt.Sprintf("(?stmt %T)", s)
 }
 func xExpr(e xast.Expression) string {
+	if nilNode(e) {
+		return "(nil)"
+	}
 	switch e := e.(type) {
 	case *xast.Identifier:
 		return "(id " + e.Value + ")"
